@@ -80,7 +80,7 @@ func observe(err error) errObs {
 	o.CtxText = strings.Contains(o.full, context.Canceled.Error()) || strings.Contains(o.full, context.DeadlineExceeded.Error())
 	o.IsCanceled = errors.Is(err, context.Canceled)
 	o.IsDeadline = errors.Is(err, context.DeadlineExceeded)
-	for e, n := err, 0; e != nil && n < 64; n++ {
+	for e, n := err, 0; e != nil && n < 100000; n++ {
 		ce := chainElem{Type: fmt.Sprintf("%T", e)}
 		if !errors.Is(err, e) {
 			o.IsReach = false
